@@ -9,7 +9,6 @@ package simtime
 // wait as `time.Sleep(d)`. Without Install the functions pass through to the real package.
 
 import (
-	"sort"
 	"time"
 
 	"github.com/Vedant9500/WTF/zz_verif/sim/simrt"
@@ -38,8 +37,15 @@ var pending []*Timer // simulated timers that have not fired; touched by the tas
 //go:norace
 func addTimer(t *Timer) {
 	t.live = true
+	// insertion keeps the list ordered by time, then by arrival (no closure here: a function literal inside a
+	// norace function is instrumented on its own and would show the simulator's bookkeeping to the race detector)
+	i := len(pending)
 	pending = append(pending, t)
-	sort.SliceStable(pending, func(i, j int) bool { return pending[i].when < pending[j].when })
+	for i > 0 && pending[i-1].when > t.when {
+		pending[i] = pending[i-1]
+		i--
+	}
+	pending[i] = t
 }
 
 //go:norace
